@@ -10,6 +10,7 @@ import (
 	"io"
 	"net/http"
 	"net/url"
+	"runtime/debug"
 	"sort"
 	"strings"
 
@@ -80,11 +81,11 @@ type clientReq struct {
 }
 
 type chunkReader struct {
-	chunks [][]byte
-	endErr bool
-	eofLast bool
-	closed bool
-	reads  int
+	chunks      [][]byte
+	endErr      bool
+	eofLast     bool
+	closed      bool
+	reads       int
 	afterReturn *bool
 	lateUse     *int
 }
@@ -193,15 +194,28 @@ func (r *recorder) body() []byte {
 	return b
 }
 
-// trailers: header entries that appeared or changed after the head was written
+// trailers as net/http sends them: keys with the TrailerPrefix, plus keys declared in the
+// head's "Trailer" header, with their final values
 func (r *recorder) trailers() http.Header {
 	out := http.Header{}
 	if r.headSnap == nil {
 		return out
 	}
+	declared := map[string]bool{}
+	for _, v := range r.headSnap.Values("Trailer") {
+		for _, k := range strings.Split(v, ",") {
+			declared[http.CanonicalHeaderKey(strings.TrimSpace(k))] = true
+		}
+	}
 	for k, v := range r.hdr {
-		if !equalStrings(r.headSnap[k], v) {
-			out[strings.TrimPrefix(k, http.TrailerPrefix)] = v
+		switch {
+		case strings.HasPrefix(k, http.TrailerPrefix):
+			key := strings.TrimPrefix(k, http.TrailerPrefix)
+			out[key] = append(out[key], v...)
+		case declared[k] && !equalStrings(r.headSnap[k], v):
+			// a declared trailer already sent with the same value in the head is repeated by
+			// net/http at the end; only a value set or changed after the head is new information
+			out[k] = append(append([]string(nil), v...), out[k]...)
 		}
 	}
 	return out
@@ -222,12 +236,12 @@ func equalStrings(a, b []string) bool {
 // ---- backend script
 
 type action struct {
-	Op   string // readall, readseq, read, hadd, hset, status, write, flush, panic
-	N    int
+	Op    string // readall, readseq, read, hadd, hset, status, write, flush, panic
+	N     int
 	Sizes []int
-	Key  string
-	Val  string
-	Data []byte
+	Key   string
+	Val   string
+	Data  []byte
 }
 
 type readResult struct {
@@ -349,14 +363,15 @@ func scriptedBackend(obs *backendObs, script []action) http.Handler {
 }
 
 type scenarioResult struct {
-	Backend   backendObs
-	Unknown   backendObs
-	Rec       *recorder
-	Panic     string
-	LateUse   int
-	CtxDone   bool // backend ctx cancelled when ServeHTTP returned
-	BuildErr  string
-	BadTarget bool
+	Backend    backendObs
+	Unknown    backendObs
+	Rec        *recorder
+	Panic      string
+	PanicStack string
+	LateUse    int
+	CtxDone    bool // backend ctx cancelled when ServeHTTP returned
+	BuildErr   string
+	BadTarget  bool
 }
 
 func buildRequest(req clientReq, late *bool, lateUse *int) (*http.Request, *chunkReader, bool) {
@@ -420,6 +435,7 @@ func runOn(tc http.Handler, req clientReq, res *scenarioResult) scenarioResult {
 		defer func() {
 			if r := recover(); r != nil {
 				res.Panic = fmt.Sprint(r)
+				res.PanicStack = string(debug.Stack())
 			}
 		}()
 		tc.ServeHTTP(rec, hr)
@@ -444,7 +460,13 @@ func hdrV(h http.Header) L {
 	sort.Strings(keys)
 	out := make(L, 0, len(keys))
 	for _, k := range keys {
-		out = append(out, L{B(k), Bl(h[k])})
+		vals := h[k]
+		if k == "Trailer" || k == "Allow" {
+			// built by iterating a Go map: order is unspecified, compare as a set
+			vals = append([]string(nil), vals...)
+			sort.Strings(vals)
+		}
+		out = append(out, L{B(k), Bl(vals)})
 	}
 	return out
 }
